@@ -647,7 +647,7 @@ class Card:
         del parent_section[leaf_node_name]
 
     def _add_single(
-        self, key: str, val: str | Section, folded: bool = False
+        self, key: str | Sequence[str], val: str | Section, folded: bool = False
     ) -> Section:
         """Add a single section.
 
@@ -656,8 +656,9 @@ class Card:
 
         Parameters
         ----------
-        key: str
-            The name of the (sub)section.
+        key: str or list of str
+            The name of the (sub)section. A list of names is used as is, i.e.
+            the names are not split on ``"/"``.
 
         val: str or Section
             The value to assign to the (sub)section. If this is already a
@@ -673,7 +674,10 @@ class Card:
             The section that has been added or modified.
 
         """
-        *subsection_names, leaf_node_name = split_subsection_names(key)
+        if isinstance(key, str):
+            *subsection_names, leaf_node_name = split_subsection_names(key)
+        else:
+            *subsection_names, leaf_node_name = key
         section = self._select(subsection_names)
 
         if isinstance(val, str):
